@@ -6,12 +6,14 @@ import SpiceEv.Wire
 import SpiceEv.Cmd.Curve
 import SpiceEv.Cmd.ScenarioRun
 import SpiceEv.Cmd.StrategyUtil
+import SpiceEv.Cmd.Util
 open SpiceEv
 
 def allHandlers : List (String × Handler) :=
   Cmd.Curve.handlers
   ++ Cmd.ScenarioRun.handlers
   ++ Cmd.StrategyUtil.handlers
+  ++ Cmd.Util.handlers
 
 def handle (line : String) : String :=
   match (line.splitOn " ").filter (· ≠ "") with
